@@ -29,15 +29,41 @@ def bool_attr(v):
     return v.lower() in ("true", "yes", "y") or v == "1"
 
 
+def req_true(kind, v):
+    """How f8c reads a `required` attribute: fields and groups `== "Y"`; component references through
+    get_value<bool> (true / yes / y in any case, or 1).  Booleans are the generators' shorthand."""
+    if isinstance(v, bool):
+        return v
+    return bool_attr(v) if kind == "c" else v == "Y"
+
+
+def req_text(kind, v):
+    if isinstance(v, bool):
+        return "Y" if v else "N"
+    return v
+
+
+def is_admin(m):
+    """msgcat % "admin": case-insensitive"""
+    return (m.get("msgcat") or "").lower() == "admin"
+
+
+def raw_req(kind, v):
+    v = v or ""
+    if v in ("0", "1") and kind != "c":      # these two texts are the term's shorthand for booleans
+        return False
+    return v
+
+
 def read_items(el):
     out = []
     for c in el:
         if c.tag == "field":
-            out.append(("f", c.get("name", ""), c.get("required") == "Y"))
+            out.append(("f", c.get("name", ""), raw_req("f", c.get("required"))))
         elif c.tag == "group":
-            out.append(("g", c.get("name", ""), c.get("required") == "Y", read_items(c)))
+            out.append(("g", c.get("name", ""), raw_req("g", c.get("required")), read_items(c)))
         elif c.tag == "component":
-            out.append(("c", c.get("name", ""), bool_attr(c.get("required"))))
+            out.append(("c", c.get("name", ""), raw_req("c", c.get("required"))))
     return out
 
 
@@ -70,7 +96,7 @@ def read_xml(path):
     for m in (ml if ml is not None else []):
         if m.tag == "message":
             s["msgs"].append({"name": m.get("name", ""), "msgtype": m.get("msgtype", ""),
-                              "admin": (m.get("msgcat") or "").lower() == "admin", "items": read_items(m)})
+                              "msgcat": m.get("msgcat") or "", "items": read_items(m)})
     return s
 
 
@@ -82,37 +108,16 @@ def xesc(v):
 def write_items(items, ind, out):
     for it in items:
         if it[0] == "f":
-            out.append("%s<field name='%s' required='%s' />" % (ind, it[1], "Y" if it[2] else "N"))
+            out.append("%s<field name='%s' required='%s' />" % (ind, it[1], req_text("f", it[2])))
         elif it[0] == "c":
-            out.append("%s<component name='%s' required='%s' />" % (ind, it[1], "Y" if it[2] else "N"))
+            out.append("%s<component name='%s' required='%s' />" % (ind, it[1].lstrip(TMARK), req_text("c", it[2])))
         else:
-            out.append("%s<group name='%s' required='%s'>" % (ind, it[1], "Y" if it[2] else "N"))
+            out.append("%s<group name='%s' required='%s'>" % (ind, it[1], req_text("g", it[2])))
             write_items(it[3], ind + " ", out)
             out.append("%s</group>" % ind)
 
 
-def write_xml(s):
-    out = ["<?xml version='1.0' encoding='ISO-8859-1'?>",
-           "<fix major='%s' type='%s' servicepack='%s' minor='%s'>" % (s["major"], s["type"], s["rev"], s["minor"]),
-           " <header>"]
-    write_items(s["header"], "  ", out)
-    out.append(" </header>")
-    out.append(" <messages>")
-    for m in s["msgs"]:
-        out.append("  <message name='%s' msgcat='%s' msgtype='%s'>" % (m["name"], "admin" if m["admin"] else "app", m["msgtype"]))
-        write_items(m["items"], "   ", out)
-        out.append("  </message>")
-    out.append(" </messages>")
-    out.append(" <trailer>")
-    write_items(s["trailer"], "  ", out)
-    out.append(" </trailer>")
-    if s["comps"]:
-        out.append(" <components>")
-        for name, items in s["comps"]:
-            out.append("  <component name='%s'>" % name)
-            write_items(items, "   ", out)
-            out.append("  </component>")
-        out.append(" </components>")
+def write_fields(s, out):
     out.append(" <fields>")
     for f in s["fields"]:
         if f["vals"]:
@@ -127,8 +132,76 @@ def write_xml(s):
         else:
             out.append("  <field number='%d' name='%s' type='%s' />" % (f["num"], f["name"], f["type"]))
     out.append(" </fields>")
+
+
+def write_xml(s, fields_first=False, with_header=True):
+    out = ["<?xml version='1.0' encoding='ISO-8859-1'?>",
+           "<fix major='%s' type='%s' servicepack='%s' minor='%s'>" % (s["major"], s["type"], s["rev"], s["minor"])]
+    if fields_first:
+        write_fields(s, out)
+    if with_header:
+        out.append(" <header>")
+        write_items(s["header"], "  ", out)
+        out.append(" </header>")
+    out.append(" <messages>")
+    for m in s["msgs"]:
+        out.append("  <message name='%s' msgcat='%s' msgtype='%s'>" % (m["name"], m["msgcat"], m["msgtype"]))
+        write_items(m["items"], "   ", out)
+        out.append("  </message>")
+    out.append(" </messages>")
+    if with_header:
+        out.append(" <trailer>")
+        write_items(s["trailer"], "  ", out)
+        out.append(" </trailer>")
+    if s["comps"]:
+        out.append(" <components>")
+        for name, items in s["comps"]:
+            out.append("  <component name='%s'>" % name.lstrip(TMARK))
+            write_items(items, "   ", out)
+            out.append("  </component>")
+        out.append(" </components>")
+    if not fields_first:
+        write_fields(s, out)
     out.append("</fix>")
     return "\n".join(out) + "\n"
+
+
+TMARK = "~"     # transport components of a FIXT-mode pair (see Schema.v: TMARK)
+
+
+def item_names(items, comps, acc, seen):
+    for it in items:
+        if it[0] == "c":
+            if it[1] not in seen:
+                seen.add(it[1])
+                item_names(comps.get(it[1], []), comps, acc, seen)
+        else:
+            acc.add(it[1])
+            if it[0] == "g":
+                item_names(it[3], comps, acc, seen)
+    return acc
+
+
+def split_fixt(s):
+    """The merged view of a FIXT-mode pair -> (transport schema, application schema).  Transport =
+    header, trailer, the admin messages, the '~' components and the fields those use."""
+    comps = dict(s["comps"])
+    tmsgs = [m for m in s["msgs"] if is_admin(m)]
+    amsgs = [m for m in s["msgs"] if not is_admin(m)]
+    tnames, seen = set(), set()
+    item_names(s["header"], comps, tnames, seen)
+    item_names(s["trailer"], comps, tnames, seen)
+    for m in tmsgs:
+        item_names(m["items"], comps, tnames, seen)
+    for n, its in s["comps"]:
+        if n.startswith(TMARK):
+            item_names(its, comps, tnames, seen)
+    ft = dict(s, msgs=tmsgs, comps=[c for c in s["comps"] if c[0].startswith(TMARK)],
+              fields=[f for f in s["fields"] if f["name"] in tnames or f["num"] == 35])
+    fa = dict(s, type="FIX", major="5", minor="0", rev="0", msgs=amsgs,
+              comps=[c for c in s["comps"] if not c[0].startswith(TMARK)],
+              fields=[f for f in s["fields"] if not (f["name"] in tnames or f["num"] == 35)], header=[], trailer=[])
+    return ft, fa
 
 
 def hx(v):
@@ -139,12 +212,13 @@ def hx(v):
 def term_items(items, out):
     out.append(str(len(items)))
     for it in items:
+        rq = ("1" if it[2] else "0") if isinstance(it[2], bool) else (it[2] or "-")
         if it[0] == "f":
-            out += ["f", it[1] or "-", "1" if it[2] else "0"]
+            out += ["f", it[1] or "-", rq]
         elif it[0] == "c":
-            out += ["c", it[1] or "-", "1" if it[2] else "0"]
+            out += ["c", it[1] or "-", rq]
         else:
-            out += ["g", it[1] or "-", "1" if it[2] else "0"]
+            out += ["g", it[1] or "-", rq]
             term_items(it[3], out)
 
 
@@ -165,7 +239,7 @@ def term(s):
     term_items(s["trailer"], out)
     out.append(str(len(s["msgs"])))
     for m in s["msgs"]:
-        out += ["M", m["name"], m["msgtype"], "1" if m["admin"] else "0"]
+        out += ["M", m["name"], m["msgtype"], m["msgcat"] or "-"]
         term_items(m["items"], out)
     for tok in out:
         assert tok and " " not in tok and "\t" not in tok and "@" not in tok, tok
@@ -188,11 +262,12 @@ def parse_term(t):
         out = []
         for _ in range(int(nx())):
             k = nx()
+            nm, rq = nx(), nx()
+            rq = True if rq == "1" else (False if rq == "0" else ("" if rq == "-" else rq))
             if k == "g":
-                nm, rq = nx(), nx() == "1"
                 out.append(("g", nm, rq, items()))
             else:
-                out.append((k, nx(), nx() == "1"))
+                out.append((k, nm, rq))
         return out
 
     assert nx() == "S"
@@ -215,7 +290,8 @@ def parse_term(t):
     s["trailer"] = items()
     for _ in range(int(nx())):
         assert nx() == "M"
-        m = {"name": nx(), "msgtype": nx(), "admin": nx() == "1"}
+        m = {"name": nx(), "msgtype": nx(), "msgcat": nx()}
+        m["msgcat"] = {"1": "admin", "0": "app", "-": ""}.get(m["msgcat"], m["msgcat"])
         m["items"] = items()
         s["msgs"].append(m)
     return s
@@ -271,11 +347,11 @@ class XS:
             raise ValueError("component recursion")
         for it in items:
             if it[0] == "f":
-                out.append(("f", self.byname[it[1]], it[2] and ctx))
+                out.append(("f", self.byname[it[1]], req_true("f", it[2]) and ctx))
             elif it[0] == "g":
-                out.append(("g", self.byname[it[1]], it[2] and ctx, self.expand(it[3], ctx, depth + 1)))
+                out.append(("g", self.byname[it[1]], req_true("g", it[2]) and ctx, self.expand(it[3], ctx, depth + 1)))
             else:
-                out += self.expand(self.comps[it[1]], it[2] and ctx, depth + 1)
+                out += self.expand(self.comps[it[1]], req_true("c", it[2]) and ctx, depth + 1)
         return out
 
 
@@ -379,7 +455,7 @@ def probes_for(xs, hdr, body, rng, nrand=2, nneg=3):
 def make_cases(s, src, rng, kinds=("T", "M"), only_groups=False, nrand=2, nneg=3, cls="gen"):
     """Case lines for one schema: tables, then one per message table entry."""
     t = term(s)
-    ncomps = len(set(n for n, _ in s["comps"]))
+    ncomps = len(set(n for n, _ in s["comps"] if not n.startswith(TMARK)))
     cases = []
     tail = SEP + src + SEP + t
     if "T" in kinds:
@@ -394,6 +470,8 @@ def make_cases(s, src, rng, kinds=("T", "M"), only_groups=False, nrand=2, nneg=3
         if mk == "M":
             cases.append(Case("M %d header 0%s" % (ncomps, tail), cls + "-header"))
             cases.append(Case("M %d trailer 0%s" % (ncomps, tail), cls + "-trailer"))
+        elif hdr is not None and any(it[0] == "g" for it in hdr):
+            cases.append(Case("G %d header 0%s" % (ncomps, tail), cls + "-header"))
         for m in s["msgs"]:
             try:
                 body = xs.expand(m["items"])
@@ -440,11 +518,17 @@ def build_schema(src, t, hname="h_c13"):
     if src.startswith("repo:"):
         xml_path = os.path.join(B.REPO, src[5:])
         xml_bytes = B.read(xml_path)
+    elif src == "genx":
+        ft, fa = split_fixt(parse_term(t))
+        # transport fields first, application fields last: f8c merges the two field lists in ONE set
+        # ordered by per-document element sequence numbers, equal numbers would drop a field
+        fixt_bytes = write_xml(ft, fields_first=True).encode("latin-1", "replace")
+        xml_bytes = write_xml(fa, with_header=False).encode("latin-1", "replace")
     else:
         xml_bytes = write_xml(parse_term(t)).encode("latin-1", "replace")
-        xml_path = None
+    fixt_bytes = fixt_bytes if src == "genx" else b""
     exe = f8c_asan()
-    gkey = B.sha(os.path.basename(exe), xml_bytes, PREFIX, NS)
+    gkey = B.sha(os.path.basename(exe), xml_bytes, fixt_bytes, PREFIX, NS)
     d = os.path.join(B.CACHE, "gen", "c13-%s" % gkey)
     done = os.path.join(d, ".done")
     with B.Lock("gen-" + os.path.basename(d)):
@@ -454,7 +538,11 @@ def build_schema(src, t, hname="h_c13"):
             xp = os.path.join(d, "schema.xml")
             with open(xp, "wb") as f:
                 f.write(xml_bytes)
-            p = subprocess.run([exe, "-Vp", PREFIX, "-n", NS, "schema.xml"], cwd=d, stdout=subprocess.PIPE,
+            if fixt_bytes:
+                with open(os.path.join(d, "fixt.xml"), "wb") as f:
+                    f.write(fixt_bytes)
+            p = subprocess.run([exe, "-Vp", PREFIX, "-n", NS] + (["-x", "fixt.xml"] if fixt_bytes else []) + ["schema.xml"],
+                               cwd=d, stdout=subprocess.PIPE,
                                stderr=subprocess.STDOUT, timeout=600, env=san_env())
             log = p.stdout.decode(errors="replace")
             open(os.path.join(d, "f8c.log"), "w").write(log)
@@ -651,7 +739,7 @@ class SB:
         return out
 
     def message(self, name, msgtype, items, admin=False):
-        self.s["msgs"].append({"name": name, "msgtype": msgtype, "admin": admin, "items": items})
+        self.s["msgs"].append({"name": name, "msgtype": msgtype, "msgcat": "admin" if admin else "app", "items": items})
 
     def finish(self):
         mt = next(f for f in self.s["fields"] if f["num"] == 35)
@@ -659,7 +747,30 @@ class SB:
         order = list(self.s["fields"])
         self.rng.shuffle(order)
         self.s["fields"] = order
-        return self.s
+        return respell(self.s, self.rng)
+
+
+def respell(s, rng):
+    """Vary the SPELLING of the attribute values f8c reads case-insensitively or leniently: msgcat
+    (`% "admin"`), component `required` (get_value<bool>), and the texts that all mean "not required" for
+    fields and groups (anything but "Y")."""
+    def items(its):
+        out = []
+        for it in its:
+            v = it[2]
+            if isinstance(v, bool):
+                if it[0] == "c":
+                    v = rng.choice(["Y", "y", "yes", "YES", "true", "True", "1"] if v else ["N", "n", "no", "false", "0", "FALSE"])
+                else:
+                    v = "Y" if v else rng.choice(["N", "N", "n", "No", "y", "false"])
+            out.append((it[0], it[1], v, items(it[3])) if it[0] == "g" else (it[0], it[1], v))
+        return out
+    s["header"], s["trailer"] = items(s["header"]), items(s["trailer"])
+    s["comps"] = [(n, items(its)) for n, its in s["comps"]]
+    for m in s["msgs"]:
+        m["items"] = items(m["items"])
+        m["msgcat"] = rng.choice(["admin", "Admin", "ADMIN", "aDmIn"] if is_admin(m) else ["app", "APP", "App", "application"])
+    return s
 
 
 def gen_alltypes(rng):
@@ -806,6 +917,42 @@ def gen_random(rng, size=1.0):
     mt = next(f for f in s["fields"] if f["num"] == 35)
     mt["vals"] = [(m["msgtype"], m["name"].upper(), False) for m in s["msgs"]]
     return s
+
+
+def gen_fixt(rng):
+    """A FIXT-mode pair in its merged view (src 'genx'): transport = header with ~HopGrp, trailer, admin
+    messages (Logon uses ~MsgTypeGrp); the application REDEFINES a component called HopGrp (NoHops with
+    other members) and uses it in a message, and as a control defines NoMsgTypes differently under
+    another component name."""
+    b = SB(rng, "1", "1")
+    b.s["type"] = "FIXT"
+    hop = [b.field("STRING", "HopCompID", num=628), b.field("UTCTIMESTAMP", "HopSendingTime", num=629),
+           b.field("SEQNUM", "HopRefID", num=630)]
+    nohops = b.field("NUMINGROUP", "NoHops", num=627)
+    mtg = [b.field("STRING", "RefMsgType", num=372), b.field("CHAR", "MsgDirection", num=385)]
+    nomt = b.field("NUMINGROUP", "NoMsgTypes", num=384)
+    b.s["header"] = list(STD_HEADER) + [("c", TMARK + "HopGrp", False)]
+    tcomps = [(TMARK + "HopGrp", [("g", nohops, False, [("f", hop[0], False), ("f", hop[1], False), ("f", hop[2], False)])]),
+              (TMARK + "MsgTypeGrp", [("g", nomt, False, [("f", mtg[0], False), ("f", mtg[1], False)])])]
+    b.message("Heartbeat", "0", [("f", "TestReqID", False)], admin=True)
+    b.message("Logon", "A", [("f", b.field("INT", "EncryptMethod", num=98), True), ("f", b.field("INT", "HeartBtInt", num=108), True),
+                             ("c", TMARK + "MsgTypeGrp", False)], admin=True)
+    extra = [b.field("STRING", "HopVenue"), b.field("INT", "HopLatency")]
+    variant = rng.randrange(3)
+    if variant == 0:      # an added member
+        amem = [("f", hop[0], True), ("f", hop[1], False), ("f", hop[2], False), ("f", extra[0], False)]
+    elif variant == 1:    # another member
+        amem = [("f", hop[0], True), ("f", extra[1], False), ("f", hop[2], False)]
+    else:                 # other members in front
+        amem = [("f", extra[0], True), ("f", hop[0], False), ("f", extra[1], False)]
+    acomps = [("HopGrp", [("f", b.field("STRING", "RouteID"), False), ("g", nohops, False, amem)]),
+              ("RouteGrp", [("g", nomt, True, [("f", mtg[0], True), ("f", b.field("STRING", "RouteApp"), False)])])]
+    b.s["comps"] = tcomps + acomps
+    pad = [b.field(rng.choice(PLAIN_TYPES)) for _ in range(12)]
+    b.message("RouteReport", "UR", [("f", pad[0], True), ("c", "HopGrp", True), ("f", pad[1], False)])
+    b.message("TypeReport", "UT", [("c", "RouteGrp", True), ("f", pad[2], True)] + [("f", x, False) for x in pad[3:8]])
+    b.message("PlainReport", "UP", [("f", x, k == 0) for k, x in enumerate(pad[8:])])
+    return b.finish()
 
 
 # ------------------------------------------------------------------------------ C14 scenarios
